@@ -153,3 +153,16 @@ define void @f(x86_mmx %x) {
 %a = type %b
 %b = type { i32, %b* }
 @h = global %b zeroinitializer
+;;; ATOM types/named-vector-types
+%FV = type <2 x i64>
+%SV = type <vscale x 2 x i64>
+%P = type <2 x i8*>
+@g = global %FV <i64 1, i64 2>
+@p = global %P zeroinitializer
+define %SV @f(%SV %x, i32* %b, %FV %i) {
+  %a = add %SV %x, zeroinitializer
+  %q = getelementptr i32, i32* %b, %FV %i
+  %r = getelementptr i32, i32* %b, %SV %x
+  %s = getelementptr i32, i32* %b, %FV zeroinitializer
+  ret %SV %a
+}
